@@ -667,7 +667,7 @@ func (g *G) mutate(mo *HModel) string {
 
 func (g *G) hostileModel() (string, *HModel) {
 	user := HRestr{Type: lit("user")}
-	flavour := g.n("hostileFlavour", 0, 8)
+	flavour := g.n("hostileFlavour", 0, 10) // 6, 9, 10: rings and meshes of types
 	if flavour == 7 && g.focus != "" {
 		flavour = 6 // see dag-blowup
 	}
@@ -765,15 +765,36 @@ func (g *G) hostileModel() (string, *HModel) {
 			return "hostile:degenerate", &HModel{Schema: "1.1", Types: []HType{{Name: lit("user")}, {Name: lit("doc"), Rels: []HRel{{Name: lit("r"), RW: &HRW{K: "union"}}, {Name: lit("q"), RW: &HRW{K: "difference"}}}}}}
 		}
 	default:
-		// long mutual recursion through usersets and TTUs across types (valid, evaluation-hostile)
-		k := g.n("ringTypes", 2, 12)
+		// long mutual recursion through usersets and TTUs across types (valid, evaluation-hostile);
+		// as a ring (one successor per type) or as a mesh (every type points at several others, up to
+		// all of them: the number of simple paths through the model explodes)
+		k := g.n("ringTypes", 2, 14)
+		deg := 1
+		if k > 2 && g.chance("ringMesh", 45) {
+			deg = g.n("ringDegree", 2, k)
+			if g.chance("meshComplete", 50) {
+				k = g.n("meshTypes", 8, 14)
+				deg = k
+			}
+		}
 		mo := &HModel{Schema: "1.1", Types: []HType{{Name: lit("user")}}}
 		for i := 0; i < k; i++ {
-			nx := "t" + itoa((i+1)%k)
+			var parents []HRestr
+			viewers := []HRestr{user}
+			for d := 1; d <= deg; d++ {
+				nx := "t" + itoa((i+d)%k)
+				parents = append(parents, HRestr{Type: lit(nx)})
+				if d == 1 || g.chance("meshUserset", 30) {
+					viewers = append(viewers, HRestr{Type: lit(nx), Rel: lit("viewer")})
+				}
+			}
 			mo.Types = append(mo.Types, HType{Name: lit("t" + itoa(i)), Rels: []HRel{
-				{Name: lit("parent"), RW: &HRW{K: "this"}, Restr: []HRestr{{Type: lit(nx)}}},
-				{Name: lit("viewer"), RW: &HRW{K: "union", Ch: []*HRW{{K: "this"}, {K: "ttu", Tupleset: lit("parent"), Rel: lit("viewer")}}}, Restr: []HRestr{user, {Type: lit(nx), Rel: lit("viewer")}}},
+				{Name: lit("parent"), RW: &HRW{K: "this"}, Restr: parents},
+				{Name: lit("viewer"), RW: &HRW{K: "union", Ch: []*HRW{{K: "this"}, {K: "ttu", Tupleset: lit("parent"), Rel: lit("viewer")}}}, Restr: viewers},
 			}})
+		}
+		if deg > 1 {
+			return "hostile:type-mesh", mo
 		}
 		return "hostile:type-ring", mo
 	}
